@@ -178,7 +178,7 @@ def expected_crl(up, crl_path):
     return urllib.parse.urlunsplit((scheme, netloc, crl_path, None, None))
 
 
-SNIS = [None, "", "example.com", "www.example.com", "a" * 63 + ".example", ".".join(["a" * 61] * 4) + ".abcde", "xn--bcher-kva.example",
+SNIS = [None, "", "example.com", "www.example.com", "my.bucket.s3.example.com", "a.b.example.com", "x.y.xn--bcher-kva.example", "a" * 63 + ".example", ".".join(["a" * 61] * 4) + ".abcde", "xn--bcher-kva.example",
         "bücher.example", "*.example.com", "*", "192.0.2.1", "::1", "2001:db8::1", "EXAMPLE.com", "foo_bar.example", "example.com.",
         "1.2.3", "-a.com", "a" * 62, "a" * 59 + ".com", "a" * 60 + ".com", "a" * 64 + ".com", "a..b", "::ffff:192.0.2.7", "localhost"]
 LOCALS = ["127.0.0.1", "::1", "192.168.1.5", "::ffff:127.0.0.1", "10.1.2.3", "192.0.2.1", "2001:db8::1"]
@@ -210,8 +210,17 @@ UPS = [
     {"cn": "192.0.2.1", "sans": [["dns", "192.0.2.1"]]},
     {"sans": [["dns", "::1"], ["dns", "2001:db8::1"], ["dns", "2001:DB8::1"]]},
     {"sans": [["dns", "EXAMPLE.COM"], ["dns", "Www.Example.Com"], ["dns", "10.0.0.1"]]},
+    # wildcard SANs upstream (an X.509 wildcard covers exactly one label): requested names 0..3 labels below the base must stay in the leaf
+    {"sans": [["dns", "*.s3.example.com"]]},
+    {"cn": "*.s3.example.com", "sans": [["dns", "*.s3.example.com"], ["dns", "s3.example.com"], ["dns", "*.example.com"]], "org": "Wild Inc"},
+    {"sans": [["dns", "*.xn--bcher-kva.example"], ["dns", "*.com"]]},
+    {"sans": [["dns", "*.0.2.1"], ["dns", "*.2.1"], ["dns", "*"]]},
 ]
 IP_AS_DNS = [21, 22, 23, 24]        # indices of the shapes above
+WILD = [25, 26, 27, 28]
+WILD_NAMES = ["s3.example.com", "b.s3.example.com", "my.bucket.s3.example.com", "a.my.bucket.s3.example.com", "example.com", "www.example.com",
+              "a.b.example.com", "xn--bcher-kva.example", "x.xn--bcher-kva.example", "x.y.xn--bcher-kva.example", "a.b.bücher.example",
+              "foo.com", "a.foo.com", "a.b.foo.com", "192.0.2.1", "2001:db8::1", "MY.Bucket.S3.example.com", "*.s3.example.com"]
 
 
 class Check(PropertyCheck):
@@ -235,7 +244,7 @@ class Check(PropertyCheck):
     rule = ("grid of SNI forms (none, 63/64-byte labels, 253-byte names, IDN, A-labels, wildcard-looking, IPv4/IPv6, case, underscore, trailing dot) x local "
             "address x server address x upstream certificate shapes (CN/SAN/O/CRLDP incl. non-hostname CNs, empty and non-DNS SANs) x CA configuration "
             "(own CA, custom SKI, no SKI, intermediate+root); then random combinations. distinct = distinct case; non-trivial = a certificate was produced.")
-    budget = {"quick": 900, "thorough": 12000}
+    budget = {"quick": 1200, "thorough": 12000}
     time_budget = {"quick": 35, "thorough": 500}
     fingerprints = ["mitmproxy.addons.tlsconfig:TlsConfig.get_cert", "mitmproxy.addons.tlsconfig:_ip_or_dns_name",
                     "mitmproxy.certs:dummy_cert", "mitmproxy.certs:CertStore.get_cert"]
@@ -292,6 +301,11 @@ class Check(PropertyCheck):
         yield case("default", "example.com", "127.0.0.1", "10.0.0.1", UPS[1], opt=False)
         # the requested identity is an IP (SNI literal, or no SNI -> local address) that the upstream certificate spells as dNSName:
         # the leaf must still carry it as iPAddress, or a strict verifier rejects it for that address
+        # wildcard SAN upstream x requested name 0,1,2,3 labels below the wildcard's base (SNI, or no SNI and the name as server address)
+        for i in WILD + [15]:
+            for n in WILD_NAMES:
+                yield case("default", n, "127.0.0.1", "10.0.0.1", UPS[i])
+                yield case("default", None, "127.0.0.1", n, UPS[i])
         for i in IP_AS_DNS:
             for sni, local in (("192.0.2.1", "127.0.0.1"), (None, "127.0.0.1"), (None, "192.0.2.1"), ("2001:db8::1", "127.0.0.1"), (None, "::1"),
                                (None, "2001:db8::1"), ("::1", "10.1.2.3"), ("example.com", "127.0.0.1"), ("www.example.com", "::1")):
